@@ -233,7 +233,9 @@ class Table(Selectable):
         return not self.__eq__(other)
 
     def __hash__(self) -> int:
-        return hash(str(self))
+        # must agree with __eq__, which compares name, schema and alias (not the temporal clause)
+        schema_sql = self._schema.get_sql(DEFAULT_SQL_CONTEXT) if self._schema is not None else None
+        return hash((self._table_name, schema_sql, self.alias))
 
     def select(self, *terms: Sequence[int | float | str | bool | Term | Field]) -> "QueryBuilder":
         """
